@@ -76,9 +76,10 @@ type scalarField[S any] interface {
 }
 
 type entry[P any, R any] struct {
-	name string
-	lib  P
-	ref  R // the intended value; the library representation is verified against it before use
+	name  string
+	lib   P
+	ref   R    // the intended value; the library representation is verified against it before use
+	inSub bool // reference: q*ref == O (then k*ref depends only on k mod q)
 }
 
 // scalar builds v mod q through FromBytes (reduction done in math/big; canonical bytes handed over).
@@ -120,7 +121,7 @@ func (g *group[P, S, R]) alphabet() ([]entry[P, R], error) {
 		qm1 := new(big.Int).Sub(g.q, one)
 		half := new(big.Int).Rsh(new(big.Int).Add(g.q, one), 1)
 		var es []entry[P, R]
-		add := func(name string, lib P, r R) { es = append(es, entry[P, R]{name, lib, r}) }
+		add := func(name string, lib P, r R) { es = append(es, entry[P, R]{name, lib, r, ref.InSubgroup(r)}) }
 		aff := func(name string, r R) {
 			p, err := g.toLib(r)
 			if err != nil {
@@ -245,7 +246,7 @@ func lawsBody[P libPoint[P, S], S curve.Byteser, R any](g *group[P, S, R]) func(
 				g.same(x, "neg", u+": P.TryOpInv()", v, ref.Neg(p.ref))
 			}
 			g.same(x, "clone", u+": P.Clone()", p.lib.Clone(), p.ref)
-			if tf := p.lib.IsTorsionFree(); tf != ref.InSubgroup(p.ref) {
+			if tf := p.lib.IsTorsionFree(); tf != p.inSub {
 				x.Failf(g.name+"/torsionfree", "%s: IsTorsionFree=%v, reference q*P==O is %v", u, tf, !tf)
 			}
 			// P + P through Add (equal operands in the general formula)
@@ -331,7 +332,10 @@ func (g *group[P, S, R]) mkScalar(x *engine.X, s namedScalar) (S, bool) {
 }
 
 func (g *group[P, S, R]) checkMul(x *engine.X, pe entry[P, R], isGen bool, sname string, sc S, k *big.Int) {
-	want := g.ref.ScalarMul(k, pe.ref)
+	g.checkMulWant(x, pe, isGen, sname, sc, g.ref.ScalarMul(k, pe.ref))
+}
+
+func (g *group[P, S, R]) checkMulWant(x *engine.X, pe entry[P, R], isGen bool, sname string, sc S, want R) {
 	tag := fmt.Sprintf("%s: [%s]%s", g.name, sname, pe.name)
 	g.same(x, "scalarmul", tag+" ScalarMul", pe.lib.ScalarMul(sc), want)
 	g.same(x, "scalarmul", tag+" ScalarOp", pe.lib.ScalarOp(sc), want)
@@ -376,11 +380,28 @@ func scalarBody[P libPoint[P, S], S curve.Byteser, R any](g *group[P, S, R], swe
 			}
 		case c <= 64:
 			w := uint(c - 1)
+			// reference for points of the prime-order subgroup: 16^w*P by 4w doublings, then d*(16^w*P) by repeated
+			// addition (k*P depends only on k mod q there); for points with a torsion component plain double-and-add
+			// on k mod q.
+			var acc, base R
+			if pe.inSub {
+				base = pe.ref
+				for t := uint(0); t < 4*w; t++ {
+					base = g.ref.Double(base)
+				}
+				acc = g.ref.Identity()
+			}
 			for d := int64(0); d < 16; d++ {
 				v := new(big.Int).Lsh(big.NewInt(d), 4*w)
 				k := new(big.Int).Mod(v, g.q)
 				x.Case(fmt.Sprintf("%s/sweep/%d/%d/%d", g.name, pi, w, d))
-				g.checkMul(x, pe, isGen, fmt.Sprintf("%d*16^%d", d, w), g.scalar(k), k)
+				sname := fmt.Sprintf("%d*16^%d", d, w)
+				if pe.inSub {
+					g.checkMulWant(x, pe, isGen, sname, g.scalar(k), acc)
+					acc = g.ref.Add(acc, base)
+				} else {
+					g.checkMul(x, pe, isGen, sname, g.scalar(k), k)
+				}
 			}
 		default:
 			lo := int64(128 * (c - 65))
@@ -433,13 +454,15 @@ func (g *group[P, S, R]) checkMSM(x *engine.X, cache *refCache[R], tag string, k
 		want = g.ref.Add(want, g.refMulCached(cache, new(big.Int).Mod(ks[i], g.q), ps[i].ref))
 	}
 	key := "msm"
-	if len(ks) == 0 {
-		key = "msm/empty"
-	}
 	func() {
 		defer func() {
 			if r := recover(); r != nil {
-				x.Failf(g.name+"/"+key+"/panic", "%s: MultiScalarMul panicked: %v", tag, r)
+				if len(ks) == 0 {
+					// one cause for every curve type (aimpl.MultiScalarMulLowLevel): one finding key
+					x.Failf("msm/empty-input/panic", "%s: MultiScalarMul of zero scalars and zero points panicked (%v); the empty sum is the identity", g.name, r)
+					return
+				}
+				x.Failf(g.name+"/msm/panic", "%s: MultiScalarMul panicked: %v", tag, r)
 			}
 		}()
 		got, err := g.msm(ss, lp)
@@ -448,6 +471,9 @@ func (g *group[P, S, R]) checkMSM(x *engine.X, cache *refCache[R], tag string, k
 			return
 		}
 		g.same(x, key, tag+" MultiScalarMul", got, want)
+		if len(ks) > 2 && len(ks) < 8 {
+			return // MultiScalarOp is a one-line alias: exercised on the short and on the bucket-method lengths only
+		}
 		got, err = g.msmOp(ss, lp)
 		if err != nil {
 			x.Failf(g.name+"/"+key, "%s: MultiScalarOp failed: %v", tag, err)
@@ -457,9 +483,10 @@ func (g *group[P, S, R]) checkMSM(x *engine.X, cache *refCache[R], tag string, k
 	}()
 }
 
-// msmSmallBody: every length 0..maxLen, every tuple over the reduced alphabets S' x P'.
-// The first (scalar,point) pair is a Choose point, the remaining positions an inner loop.
-func msmSmallBody[P libPoint[P, S], S curve.Byteser, R any](g *group[P, S, R], maxLen int) func(*engine.X) {
+// msmSmallBody: every length 0..fullLen with every tuple over S' x P' (|S'|=5, |P'|=4), then lengths up to redLen with
+// every tuple over the reduced alphabets S”={0,1,q-1} x P”={O,G,H}. The first two (scalar,point) positions are Choose
+// points, the remaining positions an inner loop.
+func msmSmallBody[P libPoint[P, S], S curve.Byteser, R any](g *group[P, S, R], fullLen, redLen int) func(*engine.X) {
 	cache := &refCache[R]{m: map[string]R{}}
 	return func(x *engine.X) {
 		al, err := g.alphabet()
@@ -471,10 +498,18 @@ func msmSmallBody[P libPoint[P, S], S curve.Byteser, R any](g *group[P, S, R], m
 		for _, e := range al {
 			byName[e.name] = e
 		}
+		maxLen := fullLen
+		if redLen > maxLen {
+			maxLen = redLen
+		}
+		n := x.Choose("len", maxLen+1)
 		pts := []entry[P, R]{byName["O"], byName["G"], byName["-G"], byName["H"]}
 		scs := []*big.Int{big.NewInt(0), big.NewInt(1), big.NewInt(2), new(big.Int).Sub(g.q, big.NewInt(1)), new(big.Int).Add(pow2(128), big.NewInt(1))}
+		if n > fullLen {
+			pts = []entry[P, R]{byName["O"], byName["G"], byName["H"]}
+			scs = []*big.Int{big.NewInt(0), big.NewInt(1), new(big.Int).Sub(g.q, big.NewInt(1))}
+		}
 		base := len(pts) * len(scs)
-		n := x.Choose("len", maxLen+1)
 		if n == 0 {
 			x.Case(g.name + "/msm/len0")
 			g.checkMSM(x, cache, g.name+": length 0", nil, nil)
@@ -488,9 +523,12 @@ func msmSmallBody[P libPoint[P, S], S curve.Byteser, R any](g *group[P, S, R], m
 			x.Observe(0)
 			return
 		}
-		first := x.Choose("first", base)
+		head := []int{x.Choose("first", base)}
+		if n >= 2 {
+			head = append(head, x.Choose("second", base))
+		}
 		rest := 1
-		for i := 1; i < n; i++ {
+		for i := len(head); i < n; i++ {
 			rest *= base
 		}
 		for idx := 0; idx < rest; idx++ {
@@ -498,18 +536,20 @@ func msmSmallBody[P libPoint[P, S], S curve.Byteser, R any](g *group[P, S, R], m
 			ps := make([]entry[P, R], n)
 			t := idx
 			for i := 0; i < n; i++ {
-				c := first
-				if i > 0 {
+				var c int
+				if i < len(head) {
+					c = head[i]
+				} else {
 					c = t % base
 					t /= base
 				}
 				ks[i] = scs[c%len(scs)]
 				ps[i] = pts[c/len(scs)]
 			}
-			x.Case(fmt.Sprintf("%s/msm/%d/%d/%d", g.name, n, first, idx))
-			g.checkMSM(x, cache, fmt.Sprintf("%s: length %d tuple %d/%d", g.name, n, first, idx), ks, ps)
+			x.Case(fmt.Sprintf("%s/msm/%d/%v/%d", g.name, n, head, idx))
+			g.checkMSM(x, cache, fmt.Sprintf("%s: length %d tuple %v/%d", g.name, n, head, idx), ks, ps)
 		}
-		x.Observe(n, first)
+		x.Observe(n, head)
 	}
 }
 
